@@ -29,5 +29,6 @@ template double phosg::Vector3<double>::dot(const phosg::Vector3<double>&) const
 template bool phosg::Vector3<double>::operator<(const phosg::Vector3<double>&) const;
 template phosg::Vector4<double> phosg::Matrix4<double>::operator*(const phosg::Vector4<double>&) const;
 template phosg::Matrix4<double> phosg::Matrix4<double>::operator*(const phosg::Matrix4<double>&) const;
+template phosg::Matrix4<double> phosg::Matrix4<double>::operator*=(const phosg::Matrix4<double>&);
 template phosg::Matrix4<double> phosg::Matrix4<double>::transposition() const;
 template phosg::Matrix4<double>& phosg::Matrix4<double>::invert();
